@@ -342,6 +342,54 @@ fn where_of(rel: &str) -> &'static str {
     }
 }
 
+thread_local! {
+    static TASK_RT: tokio::runtime::Runtime = rv::runs::runtime(2);
+}
+
+/// POST /tasks on a router over `root` (fresh data dir outside the sandbox), then the task's SSE
+/// stream up to its terminal status. `Some(vec![])` = the request was rejected; None = no terminal
+/// status within the wait (no verdict).
+fn task_frames_of(root: &std::path::Path, tool: &str, args: Value) -> Option<Vec<Value>> {
+    use axum::http::Method;
+    let data = Scratch::new("c13t-data");
+    TASK_RT.with(|rt| {
+        rt.block_on(async {
+            let router = ripd::verif::build_router(data.path().to_path_buf(), root.to_path_buf(), None, false);
+            let (st, v) = rv::http::call_json(&router, Method::POST, "/tasks", Some(json!({"tool": tool, "args": args, "title": "c13"}))).await;
+            let Some(id) = v["task_id"].as_str().map(|s| s.to_string()) else {
+                let _ = st;
+                return Some(Vec::new());
+            };
+            let terminal = |p: &[String]| {
+                p.last().map(|l| l.contains("\"tool_task_status\"") && (l.contains("\"exited\"") || l.contains("\"failed\"") || l.contains("\"cancelled\""))).unwrap_or(false)
+            };
+            let (_s, payloads, _) = rv::http::sse_collect(&router, &format!("/tasks/{id}/events"), std::time::Duration::from_secs(20), terminal).await;
+            let frames: Vec<Value> = payloads.iter().filter_map(|p| serde_json::from_str(p).ok()).collect();
+            let done = frames.iter().any(|v| v["type"] == "tool_task_status" && matches!(v["status"].as_str(), Some("exited") | Some("failed") | Some("cancelled")));
+            drop(router);
+            tokio::time::sleep(std::time::Duration::from_millis(3)).await;
+            if done {
+                Some(frames)
+            } else {
+                None
+            }
+        })
+    })
+}
+
+fn task_case_strategy() -> BoxedStrategy<Case> {
+    case_strategy()
+        .prop_map(|mut c| {
+            if c.pos == "cp.rewind.id" || c.path.contains("<CID>") {
+                c.path = "sub".to_string();
+                c.class = "inside".to_string();
+            }
+            c.pos = "task.cwd".to_string();
+            c
+        })
+        .boxed()
+}
+
 /// Run the case. A violation seen while a file tool ran through the hooked runner is attributed
 /// by a differential: the same case is run again on a fresh sandbox through the hook-less runner;
 /// what disappears came from the automatic checkpoint (`create_checkpoint` given the tool's raw
@@ -585,8 +633,24 @@ fn run_inner(case: &Case, force_bare: bool, session: bool) -> (CaseReport, bool)
             json!({"command": BASH_CMD, "cwd": p}),
         ),
     };
+    let task_frames: std::cell::RefCell<Vec<Value>> = std::cell::RefCell::new(Vec::new());
     let result = catch(|| -> Vec<rip_kernel::Event> {
-        if session {
+        if pos == "task.cwd" {
+            // a background task through the real router: `cwd` goes through the task engine's own
+            // resolver (tasks/logs.rs), which no tool call reaches
+            let Op::Tool(name, args) = &op else { return Vec::new() };
+            match task_frames_of(&root, name, args.clone()) {
+                Some(frames) => {
+                    let evs = frames.iter().filter_map(|v| serde_json::from_value::<rip_kernel::Event>(v.clone()).ok()).collect();
+                    *task_frames.borrow_mut() = frames;
+                    evs
+                }
+                None => {
+                    timed_out.set(true);
+                    Vec::new()
+                }
+            }
+        } else if session {
             let input = match &op {
                 Op::Tool(name, args) => json!({"tool": name, "args": args}),
                 Op::Create(files) => {
@@ -635,6 +699,14 @@ fn run_inner(case: &Case, force_bare: bool, session: bool) -> (CaseReport, bool)
     let refused = match pos {
         "cp.create.files" => seen.created.is_empty() && !seen.create_failed.is_empty(),
         "cp.rewind.id" => seen.rewound.is_empty() && !seen.rewind_failed.is_empty(),
+        "task.cwd" => {
+            // refused = the request was rejected, or the stream ends in `failed` without the
+            // process ever producing output
+            let fr = task_frames.borrow();
+            fr.is_empty()
+                || (!fr.iter().any(|v| v["type"] == "tool_task_output_delta")
+                    && fr.iter().any(|v| v["type"] == "tool_task_status" && v["status"] == "failed"))
+        }
         _ => seen.tool_refused() || events.is_empty(),
     };
     rep.class(if refused { "outcome:refused" } else { "outcome:accepted" });
@@ -694,6 +766,18 @@ fn run_inner(case: &Case, force_bare: bool, session: bool) -> (CaseReport, bool)
         if !refused {
             let op = op_for("");
             rep.fail(format!("{op}|not_refused|{m}"), detail(json!({})));
+        } else if pos == "task.cwd"
+            && post_ws.iter().filter(|(k, v)| pre_ws.get(*k) != Some(v)).all(|(k, v)| {
+                k == ".rip" || k == ".rip/artifacts" || k == ".rip/artifacts/blobs" || (k.starts_with(".rip/artifacts/blobs/") && matches!(v, Node::File(b) if b.is_empty()))
+            })
+            && pre_ws.keys().all(|k| post_ws.contains_key(k))
+        {
+            // a task whose cwd is refused is still a task (docs: a lone `failed` status): its two
+            // EMPTY log blobs under .rip/artifacts/blobs are part of that entity, not a side effect
+            // of the path. Counted, not reported; anything else in the workspace still is.
+            if post_ws != pre_ws {
+                rep.count("refused_task_left_empty_log_blobs", 1);
+            }
         } else if post_ws != pre_ws {
             let d = diff(&pre_ws, &post_ws);
             let in_store = post_ws
@@ -813,6 +897,14 @@ fn main() {
         GroupOpts { cases: n, threads: cwd::threads(), ..Default::default() },
         case_strategy,
         run_session,
+    );
+    let n = check.cases(250, 6_000);
+    check.group(
+        "task_cwd",
+        "the same path grammar as the `cwd` argument of a BACKGROUND TASK (POST /tasks through the real router, tool bash/shell): the task engine's own resolver (tasks/logs.rs). Same oracles: nothing outside the root changes, no sentinel content in any frame or workspace file, absolute and '..' paths are refused (request rejected, or a `failed` status without any output) and leave no trace. non-trivial as above",
+        GroupOpts { cases: n, threads: cwd::threads(), ..Default::default() },
+        task_case_strategy,
+        run,
     );
     check.finish();
 }
